@@ -75,6 +75,16 @@ def generate_econ_ic(seed, S):
             o = exo_ops[rng.randrange(len(exo_ops))]
             vals = [round(rng.uniform(1, 50), 1) for _ in range(T + 3)]
             new.append({'op': 'SetExogenous', 'sector': o['sector'], 'var': o['var'], 'value': vals})
+    if rng.random() < 0.4:
+        # an exogenous path on a variable its sector writes itself when the equations are generated
+        stated = set(o['var'] for o in new if o['op'] == 'AddInitialCondition')
+        # (an initial condition on an exogenous variable is outside the property's quantifier)
+        cands2 = [c_ for c_ in [(e['tf'], 'TaxRate', 0.05, 0.35), (e['hh'], 'AlphaIncome', 0.5, 0.9),
+                                (e['hh'], 'AlphaFin', 0.1, 0.45)] if c_[1] not in stated]
+        if cands2:
+            sh, var, lo, hi = rng.choice(cands2)
+            vals = [round(rng.uniform(lo, hi), 3) for _ in range(T + 2)]
+            new.append({'op': 'SetExogenous', 'sector': sh, 'var': var, 'value': vals})
     ops = ops[0:main_i] + new + ops[main_i:]
     return {'kind': 'ECON_IC', 'profile': 'econ_ic', 'ops': ops, 'expect': {'ics': expect, 'T': T, 'misuse': None},
             'block': {'eqs': [], 'lags': [], 'ics': [], 'exo': [], 'maxtime': T, 'err_tol': None},
